@@ -130,6 +130,7 @@ type c13Server struct {
 
 	malformed200  atomic.Int64 // rows downloads answered 200 with a body that is not R rows of one k
 	malformedHead atomic.Int64 // rows downloads whose response head was garbage ("malformed ...")
+	dropped       atomic.Int64 // requests whose connection the (still answering) server dropped
 }
 
 const (
@@ -462,7 +463,9 @@ func (s *c13Server) raw(method, path, body string) ([]byte, int, error) {
 }
 
 // transport-level failure of request k: a client timeout while the server still answers the probe is the
-// implementation hanging (exit 3); everything else is the environment
+// implementation hanging (exit 3); EOF / reset while the server still answers the probe is a connection the
+// server dropped (response `err`, status 0, note http.connection-dropped-by-server); if the probe fails too
+// (or nothing could be sent at all and the probe fails) it is the environment
 func (s *c13Server) transportFailure(k c13Call, err error) (string, int) {
 	var ne net.Error
 	timedOut := errors.As(err, &ne) && ne.Timeout()
@@ -470,6 +473,15 @@ func (s *c13Server) transportFailure(k c13Call, err error) (string, int) {
 		if _, st, perr := s.probe(2 * time.Second); perr == nil && st == 200 {
 			// the server answers, this request does not: the implementation hangs (a lock left held)
 			c13Fatal("request %s got no response within the client timeout while the server still answers GET /schema (deadlock?): %v", k.String(), err)
+		}
+	}
+	if !timedOut && !c13HTTPDown() {
+		if _, st, perr := s.probe(2 * time.Second); perr == nil && st == 200 {
+			// EOF / reset for THIS request while the same server answers at once: the server dropped the
+			// connection (a panic outside every recover) — an observed failure of the request, not the
+			// environment.  The request counts as answered with an error; the history goes on.
+			s.dropped.Add(1)
+			return "err", 0
 		}
 	}
 	c13EnvFail("transport-midrun", "request %s: %v", k.String(), err)
@@ -678,7 +690,7 @@ func c13HTTPSeq(s *c13Server) {
 		if status == -1 {
 			return // environment failure: the line in progress is dropped
 		}
-		if status != 200 {
+		if status != 200 && status != 0 {
 			c.Note("http.status=" + itoa(status))
 		}
 		if k.kind == 'b' {
@@ -727,7 +739,7 @@ func (h *c13HTTPHist) callc(cl *http.Client, tid int, k c13Call) string {
 	tResp := h.ctr.Add(1)
 	h.mu.Lock()
 	h.recs = append(h.recs, c13Rec{tInv: tInv, tResp: tResp, tid: tid, call: k, resp: resp})
-	if status != 200 && status != -1 {
+	if status != 200 && status > 0 {
 		h.stat = append(h.stat, status)
 	}
 	h.mu.Unlock()
@@ -1413,6 +1425,9 @@ func c13HTTP(c *Ctx) {
 		malformed200 += int(s.malformed200.Load())
 		malformedHead += int(s.malformedHead.Load())
 		badImage += int(s.badImage200.Load())
+		if n := int(s.dropped.Load()); n > 0 {
+			c.notes["http.connection-dropped-by-server"] += n
+		}
 	}
 	// both must be 0 on a correct server
 	c.notes["http.rows.malformed-200"] += malformed200
